@@ -276,7 +276,9 @@ static IAUTH_RULE_FUNC(iauth_class_rule_check)
 
     if (rule->trust_username && (req->auth_username[0] == '~')) {
         int ofs = (req->cli_username[0] == '~');
-        iauth_trust_username(req, req->cli_username + ofs);
+        /* The client may not have sent its user name yet (hurry-up). */
+        if (req->cli_username[ofs] != '\0')
+            iauth_trust_username(req, req->cli_username + ofs);
     }
 
     strlcpy(req->class, rule->class ? rule->class : rule->name, sizeof(req->class));
